@@ -271,7 +271,8 @@ def st_huge(ctx, label="huge"):
 
 VALUE_UNIVERSE = ["", "a", "A", "a/b", "...", "a/.../b", "..../x", "x/.....", "/", "//a//", "a/./b/../c", "..", ".", "x y", "a&b=c", "a%2Fb", "%", "@1", "?q#f", "é", "ǅ",
                   "İK", "A_.-b", "1.0", "sha1:AB,md5:00", "sha1:zz", "a:0", ":", "\x00\x7f", "+", "😀"]
-KEY_UNIVERSE = ["a_b", "aab", "AAB", "A_B", "a_", "aa", "k", "K", "key", "Key", "checksum", "Checksum", "CHECKSUM", "repository_url", "a.b", "a-b", "a_b", "1a", "", "a b",
+KELVIN = "\u212a"   # lower-cases to ASCII 'k' (the only non-ASCII scalar whose lower-case mapping is one ASCII letter)
+KEY_UNIVERSE = ["a_b", "aab", "AAB", "A_B", "a_", "aa", "k", "K", "key", "Key", KELVIN, KELVIN + "ey", "ke" + KELVIN, "\u0130", "checksum", "Checksum", "CHECKSUM", "repository_url", "a.b", "a-b", "a_b", "1a", "", "a b",
                 "é", "k%41", "a=b", "zz", "type"]
 
 
@@ -329,7 +330,7 @@ def rand_type_tok(r, shape):
     if shape == "P":
         return r.pick(IDENTS)
     if r.chance(1, 6):
-        return hx(r.pick(["", "!", "a b", "é", "T/x", "%41", "Ab.+-9", "A", "1"]))
+        return hx(r.pick(["", "!", "a b", "é", "T/x", "%41", "Ab.+-9", "A", "1", "pac\u212a", "\u212a", "\u212aA", "a\u0130", "\u01c5b"]))
     return hx(rand_type(r))
 
 
@@ -414,7 +415,7 @@ def rand_quals_step(r, sep=":"):
             items += [k(), v()]
         return J(["tfi"] + items)
     if c == 25:
-        return J([r.pick(["eqk", "cmpk"]), str(r.below(3)), hx(r.pick(KEY_UNIVERSE + ["ǅ", "K", "KEY", "İ"]))])
+        return J([r.pick(["eqk", "cmpk"]), str(r.below(3)), hx(r.pick(KEY_UNIVERSE + ["ǅ", KELVIN, "KEY", "İ"]))])
     if c == 26:
         return J([r.pick(["gett", "hast", "rmt"]), str(r.below(7))])
     if c == 27:
@@ -582,7 +583,7 @@ def st_ptype_exhaustive():
     return out
 
 
-LOOKALIKES = ["ſ", "K", "ı", "İ", "ｍ", "Ａ", "ᵃ", "ß", "g", "G", "e", "m", "n", "p", "y", "i", "u", "t", "c", "a", "r", "o", "l", "v"]
+LOOKALIKES = ["ſ", "\u212a", "K", "ı", "İ", "ｍ", "Ａ", "ᵃ", "ß", "g", "G", "e", "m", "n", "p", "y", "i", "u", "t", "c", "a", "r", "o", "l", "v"]
 SPEC_TYPES = ["alpm", "apk", "bitbucket", "bitnami", "cocoapods", "composer", "conan", "conda", "cpan", "cran", "deb", "docker",
               "generic", "github", "hackage", "hex", "huggingface", "luarocks", "mlflow", "oci", "pub", "qpkg", "rpm", "swid",
               "swift", "maven2", "go", "pip", "rubygems", "crates", "node"]
@@ -599,6 +600,20 @@ def st_ptype_near(ctx, n, label="ptype"):
                     out.append(case("ptype " + hx(name[:i] + c + name[i + 1:]), "ptype-edit"))
             if i < len(name):
                 out.append(case("ptype " + hx(name[:i] + name[i + 1:]), "ptype-edit"))
+    # scalars congruent to the right letter modulo 2^7 / 2^8 / 2^16 (what a narrowing cast or a byte-wise comparison
+    # would confuse with it); thorough tier: every scalar congruent modulo 256
+    for name in KNOWN_TYPES:
+        for i, c in enumerate(name):
+            ks = range(1, 0x1100) if ctx.tier == "thorough" else [1, 2, 3, 0x1F3, 0x100, 0x10FF]
+            subs = set()
+            for k in ks:
+                for base in (ord(c), ord(c.upper())):
+                    subs.add(base + 0x100 * k)
+            for base in (ord(c), ord(c.upper())):
+                subs.update([base + 0x80, base + 0x10000, base + 0xFF00])
+            for cp in sorted(subs):
+                if cp < 0x110000 and not (0xD800 <= cp < 0xE000):
+                    out.append(case("ptype " + hx(name[:i] + chr(cp) + name[i + 1:]), "ptype-congruent"))
     for t in SPEC_TYPES + [""]:
         out.append(case("ptype " + hx(t), "ptype-spec"))
         out.append(case("ptype " + hx(t.upper()), "ptype-spec"))
@@ -610,7 +625,7 @@ def st_ptype_near(ctx, n, label="ptype"):
 
 
 def st_ptype_short(maxlen):
-    letters = ["g", "e", "m", "n", "p", "G", "ｍ", "K", "ſ"]
+    letters = ["g", "e", "m", "n", "p", "G", "ｍ", "\u212a", "ſ"]
     out = []
     for k in range(0, maxlen + 1):
         for tup in itertools.product(letters, repeat=k):
@@ -766,7 +781,7 @@ def st_ascii_pairs():
 BAD_UTF8 = ["%80", "%BF", "%C3", "%c3", "%E2%82", "%e2%82", "%F0%9F%98", "%C0%AF", "%c0%af", "%E0%80%AF", "%ED%A0%80", "%ed%a0%80",
             "%F4%90%80%80", "%f4%90%80%80", "%FF", "%fe", "%C3%28", "%E2%28%A1", "%F8%88%80%80%80"]
 BAD_TYPE_CHARS = ["!", "$", "_", "~", "*", ":", ",", " ", "é", "%41", "%2B", "&", "=", "\x00", "\u212a", "(", "\\"]
-BAD_KEY_ITEMS = ["k!=v", "=v", "%6B=v", "é=v", "a b=v", "k%41=v", "a+b=v", "k:=v", "a/b=v", "=", "K K=1"]
+BAD_KEY_ITEMS = ["k!=v", "=v", "%6B=v", "é=v", "a b=v", "k%41=v", "a+b=v", "k:=v", "a/b=v", "=", "K K=1", "\u212a=v", "\u212aey=v", "a\u0130=v"]
 BAD_CHECKSUMS = ["sha1", "sha1:abc", "sha1:zz", "sha1:0g", "a:00,b", "a:00,A:11", "sha1:00,SHA1:00", "a:0", "md5:00,sha1:ABCDE", "a:é", "a:00,,b:11",
                  "ǅ:00,ǆ:11"]
 FAULT_KINDS = ["scheme", "notype", "badtype", "noname", "qual-noeq", "qual-badkey", "qual-dup", "utf8", "slash", "checksum"]
